@@ -32,7 +32,8 @@ class Scen:
 class World:
     """one configuration: scenarios pre-queued (parser finished) or delivered by a lazy parser"""
 
-    def __init__(self, scens, limit, fail_fast=False, parser=None, sleep_polls=1, empty_rule_features=()):
+    def __init__(self, scens, limit, fail_fast=False, parser=None, sleep_polls=1, empty_rule_features=(), runs=1):
+        self.runs = runs          # how many runs are done one after the other in the same process (statics persist)
         self.scens, self.limit, self.fail_fast, self.parser = scens, limit, fail_fast, parser
         self.empty_rule_features = tuple(empty_rule_features)   # features that consist of one rule without scenarios (all filtered out)
         self.sleep_polls = sleep_polls      # how many polls of execute() the sleeper thread of a retry delay stays asleep
@@ -171,6 +172,15 @@ def simulate(chk, world, max_polls=40, loop_bound=14, sleep_polls=1):
     rule_sc = prog.tables.struct_fields('gherkin::Rule').index('scenarios')
 
     def run(ex_):
+        res_ = one_run(ex_)
+        for _ in range(getattr(world, 'runs', 1) - 1):
+            if not res_['done']:
+                break
+            ex_.models.log(ex_, 'next_run')
+            res_ = one_run(ex_)
+        return res_
+
+    def one_run(ex_):
         for ri in set(s.rule for s in world.scens if s.rule is not None):
             ex_.add(z3.BitVec('rule%d.%d.len' % (ri, rule_sc), 64) == bv(len([s for s in world.scens if s.rule == ri])))
         ex_.env['sleep_polls'] = max(sleep_polls, getattr(world, 'sleep_polls', 1))
@@ -652,6 +662,8 @@ def world_script(world, res, scale=1):
                 emit(s, '    ')
     if 'end' in late_of:
         lines.append('parser_end late=%d' % (late_of['end'] * scale))
+    if getattr(world, 'runs', 1) > 1:
+        lines.append('runs %d' % world.runs)
     return lines + beh
 
 
@@ -714,6 +726,8 @@ def native_oracle(world, name, tl, done):
         # Started is emitted at the first poll, in the loop turn that dispatched the attempt: a start after the
         # final failure's Finished event was dispatched after that failure was observable
         return 'after the final failure of %s, %s still started' % (tl[ff[0]][1], [e[1] for e in late]) if late else None
+    if name in ('panic-hook-silenced-while-running', 'panic-hook-restored'):
+        return None       # judged from the driver's HOOK lines (see confirm_native)
     if name == 'in-flight-attempts-progress-during-retry-delay':
         # natively the delay is 300 ms and a yield costs microseconds: an attempt that was in flight when the delayed
         # scenario failed finishes long before the retried attempt may start
@@ -754,6 +768,15 @@ def confirm_native(chk, o, prop, name):
         done = not r.get('timeout')
         if name == 'terminates':
             err = None if done else 'the real runner did not end its event stream within the watchdog'
+        elif name in ('panic-hook-silenced-while-running', 'panic-hook-restored'):
+            import re as _re
+            hk = [(int(a), int(b)) for a, b in _re.findall(r'LOG HOOK during_run=(\d+) probe_reached=(\d+)', out)]
+            panics = len(_re.findall(r'LOG exit \w+ \[[^\]]*\] call=\d+ panic', out))
+            err = None
+            if name == 'panic-hook-silenced-while-running' and panics and any(d > 0 for d, _ in hk):
+                err = 'panics of scripted steps reached the process panic hook during a run: per run %s' % [d for d, _ in hk]
+            if name == 'panic-hook-restored' and any(p != 1 for _, p in hk):
+                err = 'after a run a probe panic did not reach the hook installed before it: per run %s' % [p for _, p in hk]
         else:
             err = native_oracle(world, name, native_timeline(out), done)
         if err:
